@@ -6,6 +6,9 @@
 package b10store
 
 import (
+	"bytes"
+	_ "crypto/sha256"
+	"encoding/hex"
 	"errors"
 	"fmt"
 	"io"
@@ -25,6 +28,7 @@ import (
 	"github.com/go-git/go-git/v6/plumbing/filemode"
 	formatcfg "github.com/go-git/go-git/v6/plumbing/format/config"
 	"github.com/go-git/go-git/v6/plumbing/format/index"
+	"github.com/go-git/go-git/v6/plumbing/format/packfile"
 	"github.com/go-git/go-git/v6/plumbing/format/reflog"
 	"github.com/go-git/go-git/v6/plumbing/storer"
 	"github.com/go-git/go-git/v6/storage"
@@ -114,18 +118,22 @@ func (u *Universe) IdxOf(h plumbing.Hash) (int, bool) {
 	return 0, false
 }
 
-func (u *Universe) hashIdx(h plumbing.Hash) lib.Out {
+// compact observables (mirrors Spec/AStore.v o_res): every result is one symbol
+//   ok | e<class> | h<k> / s<n> | L(_<name><h|s><k>)* | n<k> | o<k>_<t>_<sz> | I(_<k>)* | Q(_<k>)*
+// anything outside the universe is spelled out with an X marker so that it can
+// never coincide with a model observable.
+func (u *Universe) hashIdx(h plumbing.Hash) string {
 	if i, ok := u.IdxOf(h); ok {
-		return lib.Int(int64(i))
+		return strconv.Itoa(i)
 	}
-	return lib.Str("hash:" + h.String())
+	return "Xhash" + h.String()
 }
 
-func (u *Universe) nameIdx(n string) lib.Out {
+func (u *Universe) nameIdx(n string) string {
 	if i, ok := u.byName[n]; ok {
-		return lib.Int(int64(i))
+		return strconv.Itoa(i)
 	}
-	return lib.Str("name:" + n)
+	return "Xname" + hex.EncodeToString([]byte(n))
 }
 
 // Ref builds the reference (name index, value) where value is ["h",k] or ["s",n].
@@ -138,30 +146,30 @@ func (u *Universe) Ref(n int, v any) *plumbing.Reference {
 	return plumbing.NewHashReference(plumbing.ReferenceName(u.Names[n]), u.Hash(int(num(p[1]))))
 }
 
-func (u *Universe) refval(r *plumbing.Reference) lib.Out {
+func (u *Universe) refval(r *plumbing.Reference) string {
 	if r.Type() == plumbing.SymbolicReference {
-		return lib.List(lib.Sym("s"), u.nameIdx(string(r.Target())))
+		return "s" + u.nameIdx(string(r.Target()))
 	}
-	return lib.List(lib.Sym("h"), u.hashIdx(r.Hash()))
+	return "h" + u.hashIdx(r.Hash())
 }
 
 // ErrClass maps an error of the storer API to the model's error classes.
 func ErrClass(err error) lib.Out {
 	switch {
 	case errors.Is(err, plumbing.ErrReferenceNotFound):
-		return lib.Err("ref_not_found")
+		return lib.Sym("eNF")
 	case errors.Is(err, storage.ErrReferenceHasChanged):
-		return lib.Err("ref_changed")
+		return lib.Sym("eCH")
 	case errors.Is(err, plumbing.ErrObjectNotFound):
-		return lib.Err("obj_not_found")
+		return lib.Sym("eON")
 	case errors.Is(err, dotgit.ErrEmptyRefFile):
-		return lib.Err("empty_ref_file")
+		return lib.Sym("eEF")
 	case errors.Is(err, dotgit.ErrPackedRefsBadFormat):
-		return lib.Err("packed_refs_bad_format")
+		return lib.Sym("ePB")
 	case errors.Is(err, memory.ErrUnsupportedObjectType), errors.Is(err, plumbing.ErrInvalidType):
-		return lib.Err("invalid_type")
+		return lib.Sym("eIT")
 	}
-	return lib.Err("other")
+	return lib.Sym("eOT")
 }
 
 // ---------------------------------------------------------------- values
@@ -180,17 +188,17 @@ func (u *Universe) Index(i int) *index.Index {
 
 func indexVal(idx *index.Index) lib.Out {
 	if idx == nil {
-		return lib.Str("nil-index")
+		return lib.Sym("nXnil")
 	}
 	if len(idx.Entries) == 0 {
-		return lib.Int(0)
+		return lib.Sym("n0")
 	}
 	if len(idx.Entries) == 1 && strings.HasPrefix(idx.Entries[0].Name, "f") {
 		if n, err := strconv.Atoi(idx.Entries[0].Name[1:]); err == nil {
-			return lib.Int(int64(n))
+			return lib.Sym("n" + strconv.Itoa(n))
 		}
 	}
-	return lib.Str("index:" + strconv.Itoa(len(idx.Entries)))
+	return lib.Sym("nXentries" + strconv.Itoa(len(idx.Entries)))
 }
 
 // Config c: the default config for 0, else user.name = u<c>.  The base
@@ -209,17 +217,17 @@ func cfgWith(base *config.Config, c int) *config.Config {
 
 func cfgVal(cfg *config.Config) lib.Out {
 	if cfg == nil {
-		return lib.Str("nil-config")
+		return lib.Sym("nXnil")
 	}
 	if cfg.User.Name == "" {
-		return lib.Int(0)
+		return lib.Sym("n0")
 	}
 	if strings.HasPrefix(cfg.User.Name, "u") {
 		if n, err := strconv.Atoi(cfg.User.Name[1:]); err == nil {
-			return lib.Int(int64(n))
+			return lib.Sym("n" + strconv.Itoa(n))
 		}
 	}
-	return lib.Str("user:" + cfg.User.Name)
+	return lib.Sym("nXuser" + hex.EncodeToString([]byte(cfg.User.Name)))
 }
 
 func (u *Universe) logEntry(e int) *reflog.Entry {
@@ -230,16 +238,26 @@ func (u *Universe) logEntry(e int) *reflog.Entry {
 	}
 }
 
-func logVal(e *reflog.Entry) lib.Out {
+func logVal(e *reflog.Entry) string {
 	if e != nil && strings.HasPrefix(e.Message, "m") {
 		if n, err := strconv.Atoi(e.Message[1:]); err == nil {
-			return lib.Int(int64(n))
+			return strconv.Itoa(n)
 		}
 	}
-	return lib.Str("entry")
+	return "Xentry"
 }
 
 // ---------------------------------------------------------------- listings
+
+func join(prefix string, parts []string) lib.Out {
+	var b strings.Builder
+	b.WriteString(prefix)
+	for _, p := range parts {
+		b.WriteByte('_')
+		b.WriteString(p)
+	}
+	return lib.Sym(b.String())
+}
 
 func (u *Universe) refList(it storer.ReferenceIter, err error) lib.Out {
 	if err != nil {
@@ -248,7 +266,7 @@ func (u *Universe) refList(it storer.ReferenceIter, err error) lib.Out {
 	type ent struct {
 		n    int
 		code int64
-		o    lib.Out
+		o    string
 	}
 	var l []ent
 	err = it.ForEach(func(r *plumbing.Reference) error {
@@ -263,7 +281,7 @@ func (u *Universe) refList(it storer.ReferenceIter, err error) lib.Out {
 			k, _ := u.IdxOf(r.Hash())
 			code = 2 * int64(k)
 		}
-		l = append(l, ent{n, code, lib.List(u.nameIdx(string(r.Name())), u.refval(r))})
+		l = append(l, ent{n, code, u.nameIdx(string(r.Name())) + u.refval(r)})
 		return nil
 	})
 	if err != nil {
@@ -275,11 +293,11 @@ func (u *Universe) refList(it storer.ReferenceIter, err error) lib.Out {
 		}
 		return l[i].code < l[j].code
 	})
-	outs := make([]lib.Out, len(l))
+	outs := make([]string, len(l))
 	for i := range l {
 		outs[i] = l[i].o
 	}
-	return lib.Ok(outs...)
+	return join("L", outs)
 }
 
 func (u *Universe) objList(it storer.EncodedObjectIter, err error) lib.Out {
@@ -300,43 +318,43 @@ func (u *Universe) objList(it storer.EncodedObjectIter, err error) lib.Out {
 		return ErrClass(err)
 	}
 	sort.Ints(ids)
-	outs := make([]lib.Out, 0, len(ids))
+	outs := make([]string, 0, len(ids))
 	for _, i := range ids {
-		outs = append(outs, lib.Int(int64(i)))
+		outs = append(outs, strconv.Itoa(i))
 	}
 	for i := 0; i < unknown; i++ {
-		outs = append(outs, lib.Str("unknown-object"))
+		outs = append(outs, "Xunknown")
 	}
-	return lib.Ok(outs...)
+	return join("I", outs)
 }
 
 func (u *Universe) hashSeq(hs []plumbing.Hash, err error) lib.Out {
 	if err != nil {
 		return ErrClass(err)
 	}
-	outs := make([]lib.Out, len(hs))
+	outs := make([]string, len(hs))
 	for i, h := range hs {
 		outs[i] = u.hashIdx(h)
 	}
-	return lib.Ok(outs...)
+	return join("Q", outs)
 }
 
 func logSeq(es []*reflog.Entry, err error) lib.Out {
 	if err != nil {
 		return ErrClass(err)
 	}
-	outs := make([]lib.Out, len(es))
+	outs := make([]string, len(es))
 	for i, e := range es {
 		outs[i] = logVal(e)
 	}
-	return lib.Ok(outs...)
+	return join("Q", outs)
 }
 
 func okOr(err error) lib.Out {
 	if err != nil {
 		return ErrClass(err)
 	}
-	return lib.Ok()
+	return lib.Sym("ok")
 }
 
 // ---------------------------------------------------------------- one call
@@ -358,7 +376,7 @@ func (u *Universe) Step(st storage.Storer, op []any) lib.Out {
 		if err != nil {
 			return ErrClass(err)
 		}
-		return lib.Ok(u.refval(r))
+		return lib.Sym(u.refval(r))
 	case "iterrefs":
 		return u.refList(st.IterReferences())
 	case "delref":
@@ -370,7 +388,24 @@ func (u *Universe) Step(st storage.Storer, op []any) lib.Out {
 		if err != nil {
 			return ErrClass(err)
 		}
-		return lib.Ok(u.hashIdx(h))
+		return lib.Sym("n" + u.hashIdx(h))
+	case "addpack":
+		// a packfile holding the listed objects, through packfile.UpdateObjectStorage
+		l, _ := op[1].([]any)
+		src := memory.NewStorage(memory.WithObjectFormat(u.Format))
+		var hs []plumbing.Hash
+		for _, x := range l {
+			h, err := src.SetEncodedObject(u.Obj(int(num(x))))
+			if err != nil {
+				panic(err)
+			}
+			hs = append(hs, h)
+		}
+		var buf bytes.Buffer
+		if _, err := packfile.NewEncoder(&buf, src, false).Encode(hs, 10); err != nil {
+			panic(err)
+		}
+		return okOr(packfile.UpdateObjectStorage(st, &buf))
 	case "hasobj":
 		return okOr(st.HasEncodedObject(u.Hash(i(1))))
 	case "sizeobj":
@@ -378,7 +413,7 @@ func (u *Universe) Step(st storage.Storer, op []any) lib.Out {
 		if err != nil {
 			return ErrClass(err)
 		}
-		return lib.Ok(lib.Int(sz))
+		return lib.Sym("n" + strconv.FormatInt(sz, 10))
 	case "getobj":
 		o, err := st.EncodedObject(qtype(i(1)), u.Hash(i(2)))
 		if err != nil {
@@ -387,18 +422,18 @@ func (u *Universe) Step(st storage.Storer, op []any) lib.Out {
 		// the content is part of the observable: it must be the universe's body
 		rd, err := o.Reader()
 		if err != nil {
-			return lib.Err("reader")
+			return lib.Sym("eXreader")
 		}
 		body, err := io.ReadAll(rd)
 		rd.Close()
 		if err != nil {
-			return lib.Err("read")
+			return lib.Sym("eXread")
 		}
 		k, ok := u.byHash[o.Hash()]
 		if !ok || string(body) != string(u.Bodies[k]) {
-			return lib.Err("wrong_content")
+			return lib.Sym("eXwrongcontent")
 		}
-		return lib.Ok(lib.Int(int64(k)), lib.Int(int64(o.Type())), lib.Int(o.Size()))
+		return lib.Sym(fmt.Sprintf("o%d_%d_%d", k, int(o.Type()), o.Size()))
 	case "iterobjs":
 		return u.objList(st.IterEncodedObjects(qtype(i(1))))
 	case "setidx":
@@ -408,7 +443,7 @@ func (u *Universe) Step(st storage.Storer, op []any) lib.Out {
 		if err != nil {
 			return ErrClass(err)
 		}
-		return lib.Ok(indexVal(idx))
+		return indexVal(idx)
 	case "setcfg":
 		base, _ := st.Config()
 		return okOr(st.SetConfig(cfgWith(base, i(1))))
@@ -417,7 +452,7 @@ func (u *Universe) Step(st storage.Storer, op []any) lib.Out {
 		if err != nil {
 			return ErrClass(err)
 		}
-		return lib.Ok(cfgVal(cfg))
+		return cfgVal(cfg)
 	case "setshallow":
 		l, _ := op[1].([]any)
 		hs := make([]plumbing.Hash, 0, len(l))
@@ -430,19 +465,19 @@ func (u *Universe) Step(st storage.Storer, op []any) lib.Out {
 	case "applog":
 		rs, ok := st.(storer.ReflogStorer)
 		if !ok {
-			return lib.Err("no_reflog")
+			return lib.Sym("eXnoreflog")
 		}
 		return okOr(rs.AppendReflog(rn(1), u.logEntry(i(2))))
 	case "getlog":
 		rs, ok := st.(storer.ReflogStorer)
 		if !ok {
-			return lib.Err("no_reflog")
+			return lib.Sym("eXnoreflog")
 		}
 		return logSeq(rs.Reflog(rn(1)))
 	case "dellog":
 		rs, ok := st.(storer.ReflogStorer)
 		if !ok {
-			return lib.Err("no_reflog")
+			return lib.Sym("eXnoreflog")
 		}
 		return okOr(rs.DeleteReflog(rn(1)))
 	}
@@ -490,17 +525,17 @@ func (u *Universe) Snapshot(st storage.Storer) lib.Out {
 		for n := range u.Names {
 			es, err := rs.Reflog(plumbing.ReferenceName(u.Names[n]))
 			if err != nil {
-				logs = append(logs, lib.List(lib.Int(int64(n)), ErrClass(err)))
+				logs = append(logs, lib.Sym("G"+strconv.Itoa(n)+"_Xerr"))
 				continue
 			}
 			if len(es) == 0 {
 				continue
 			}
-			l := []lib.Out{lib.Int(int64(n))}
+			var l []string
 			for _, e := range es {
 				l = append(l, logVal(e))
 			}
-			logs = append(logs, lib.List(l...))
+			logs = append(logs, join("G"+strconv.Itoa(n), l))
 		}
 	}
 	return lib.List(
@@ -522,6 +557,27 @@ type Backend struct {
 	Kind string
 	Opts string
 	Dir  string // osfs: directory to remove afterwards
+	fs   billy.Filesystem
+	fo   filesystem.Options
+}
+
+func (b *Backend) newCache() cache.Object {
+	if strings.Contains(b.Opts, "c") {
+		return cache.NewObjectLRU(0)
+	}
+	return cache.NewObjectLRUDefault()
+}
+
+// Reopen closes a filesystem storer and opens a new one on the same files
+// (a no-op for the memory backend, which has no persistent form).
+func (b *Backend) Reopen(st storage.Storer) storage.Storer {
+	if b.fs == nil {
+		return st
+	}
+	if c, ok := st.(io.Closer); ok {
+		c.Close()
+	}
+	return filesystem.NewStorageWithOptions(b.fs, b.newCache(), b.fo)
 }
 
 // Open builds a storer for the backend spec.
@@ -562,13 +618,8 @@ func Open(spec string) (storage.Storer, *Backend, error) {
 	if strings.Contains(opts, "l") {
 		o.LargeObjectThreshold = 1
 	}
-	var c cache.Object
-	if strings.Contains(opts, "c") {
-		c = cache.NewObjectLRU(0)
-	} else {
-		c = cache.NewObjectLRUDefault()
-	}
-	return filesystem.NewStorageWithOptions(fs, c, o), b, nil
+	b.fs, b.fo = fs, o
+	return filesystem.NewStorageWithOptions(fs, b.newCache(), o), b, nil
 }
 
 // Format is the object format selected by a backend spec.
